@@ -1125,3 +1125,83 @@ m("C11", "refactor-split-find", T,
                 offset = str.find(self, s, offset)''',
   '''            if sep is None:
                 offset = str.index(self, s, offset)''', expect="silent")
+
+# ---- C18 -------------------------------------------------------------------
+m("C18", "stale-ns-key-kept", ZP,
+  '''            if i < len(keys):
+                ns_attrs.pop(keys[i], None)
+''', '')
+m("C18", "any-prefix-converted", ZP,
+  '''            namespace = namespaces.get(prefix)
+            if namespace not in (TAL, METAL, I18N, META):
+                # an ordinary data attribute
+                continue
+''',
+  '''            namespace = namespaces[prefix]
+''')
+m("C18", "xml-prefix-converted", ZP,
+  '''            if namespace not in (TAL, METAL, I18N, META):''',
+  '''            if namespace is None:''')
+m("C18", "unclosed-namespaces-leak", PA,
+  '''        if unclosed:
+            del self.namespaces[-unclosed:]
+''', '')
+m("C18", "end-tag-pops-two", PA,
+  '''        try:
+            namespace = self.namespaces.pop()
+        except IndexError:''',
+  '''        try:
+            namespace = self.namespaces.pop()
+            self.namespaces.pop()
+        except IndexError:''')
+m("C18", "meta-not-dropped", ZP,
+  "    DROP_NS = TAL, METAL, I18N, META\n", "    DROP_NS = TAL, METAL, I18N\n")
+m("C18", "xmlns-declarations-kept", TL,
+  '''            if ns in drop_ns or (
+                ns == XMLNS_NS and
+                attribute['value'] in drop_ns)}''',
+  '''            if ns in drop_ns}''')
+m("C18", "i18n-not-validated", ZP,
+  "        validate_attributes(ns, I18N, i18n.WHITELIST)\n", "")
+m("C18", "empty-tag-pushes", PA,
+  '''    def visit_empty_tag(self, kind, token):
+        namespace = self.namespaces[-1].copy()''',
+  '''    def visit_empty_tag(self, kind, token):
+        namespace = self.namespaces[-1].copy()
+        self.namespaces.append(namespace)''')
+m("C18", "unpack-skips-xmlns", PA,
+  '''        name = attribute['name']
+        value = attribute['value']
+
+        if ':' in name:
+            prefix = name.split(':')[0]
+            name = name[len(prefix) + 1:]''',
+  '''        name = attribute['name']
+        value = attribute['value']
+        if name == 'xmlns':
+            continue
+
+        if ':' in name:
+            prefix = name.split(':')[0]
+            name = name[len(prefix) + 1:]''')
+m("C18", "drop-set-not-applied", TL,
+  '''        if name in drop:
+            continue
+
+        attributes.append((''',
+  '''        attributes.append((''')
+m("C18", "data-attrs-always-on", ZP,
+  '''        if self.enable_data_attributes:
+            attrs = list(attrs)
+            convert_data_attributes(ns, attrs, start['ns_map'])''',
+  '''        if True:
+            attrs = list(attrs)
+            convert_data_attributes(ns, attrs, start['ns_map'])''')
+m("C18", "refactor-unclosed-loop", PA,
+  '''        if unclosed:
+            del self.namespaces[-unclosed:]
+''',
+  '''        if unclosed:
+            del self.namespaces[-unclosed:]
+        unclosed = None
+''', expect="silent")
